@@ -299,6 +299,17 @@ func runCheck(prop, tier string, seed int) int {
 	if len(serving) == 0 {
 		rep.undecided = append(rep.undecided, "no function under contract serves "+prop)
 	}
+	budgetMin := 8
+	if tier == "thorough" {
+		budgetMin = 45
+	}
+	if v, err := strconv.Atoi(os.Getenv("VERIF_BUDGET_MIN")); err == nil && v > 0 {
+		budgetMin = v
+	}
+	dischargeDeadline = time.Now().Add(time.Duration(budgetMin) * time.Minute)
+	if os.Getenv("VERIF_TRACE") != "" {
+		fmt.Fprintf(os.Stderr, "trace: %s generation done, %d obligations, discharge starts (budget %d min)\n", time.Since(t0).Round(time.Second), len(all), budgetMin)
+	}
 	dischargeAll(all, timeout, seed, true)
 	// An obligation the solvers gave up on (timeout / unknown — never a model) gets one more, longer and less
 	// contended attempt before it is reported: on a loaded machine a 100 ms proof can miss a 10 s budget.
@@ -309,6 +320,9 @@ func runCheck(prop, tier string, seed int) int {
 		for _, o := range all {
 			if o.Result != "timeout" && o.Result != "unknown" {
 				continue
+			}
+			if o.SplitBits > 0 {
+				continue // a case-split obligation has already had hundreds of solver runs
 			}
 			isKnown := false
 			for i := range kn {
@@ -375,6 +389,7 @@ func runCheck(prop, tier string, seed int) int {
 	discharged := 0
 	var evs []oblEvidence
 	solverMs := int64(0)
+	overBudget := 0
 	bySolver := map[string]int{}
 	for _, o := range all {
 		evs = append(evs, oblEvidence{Name: o.Name, Kind: o.Kind, Tags: o.Tags, Result: o.Result, Solver: o.Solver, Ms: o.Ms,
@@ -384,6 +399,10 @@ func runCheck(prop, tier string, seed int) int {
 			discharged++
 			bySolver[o.Solver]++
 			continue
+		}
+		if o.Solver == "budget" {
+			overBudget++
+			continue // not attempted (or not finished) within the tier's time budget: undecided, reported once below
 		}
 		// undischarged
 		var kf *KnownFinding
@@ -470,6 +489,9 @@ func runCheck(prop, tier string, seed int) int {
 		}
 	}
 	level := "proof"
+		if overBudget > 0 {
+		rep.undecided = append(rep.undecided, fmt.Sprintf("%d obligation(s) were not decided within the %s tier's solver time budget (the code under check makes the proofs much slower than on the pinned tree)", overBudget, tier))
+	}
 	cov := map[string]interface{}{
 		"obligations":              len(all) - knownObls,
 		"discharged":               discharged,
